@@ -35,6 +35,7 @@ Seqs(S, k) == \* concatenations of at most k members of S
 Body0 == Seqs(Atoms, 2)
 
 Forms == {"lit", "exec", "ift", "iff", "ifelset", "ifelsef", "repeat2", "repeat0", "repeat1", "forallhigh", "for", "fordown",
+          "forempty", "foremptydown", "forone",
           "loop", "forall", "forallstr", "bindexec", "defp", "defbindp", "foralldict"}
 Wrap(f, b) ==
     CASE f = "lit" -> <<"{">> \o b \o <<"}">>
@@ -49,6 +50,9 @@ Wrap(f, b) ==
       [] f = "forallhigh" -> <<"<C3A9FF>", "{">> \o b \o <<"}", "forall">>    \* bytes, not characters
       [] f = "for" -> <<"1", "1", "3", "{">> \o b \o <<"}", "for">>
       [] f = "fordown" -> <<"3", "-1", "2", "{">> \o b \o <<"}", "for">>
+      [] f = "forempty" -> <<"5", "1", "3", "{">> \o b \o <<"}", "for">>          \* empty range: the body never runs
+      [] f = "foremptydown" -> <<"1", "-1", "3", "{">> \o b \o <<"}", "for">>
+      [] f = "forone" -> <<"2", "1", "2", "{">> \o b \o <<"}", "for">>
       [] f = "loop" -> <<"{">> \o b \o <<"}", "loop">>
       [] f = "forall" -> <<"[", "5", "6", "]", "{">> \o b \o <<"}", "forall">>
       [] f = "forallstr" -> <<"2", "string", "{">> \o b \o <<"}", "forall">>
